@@ -528,6 +528,9 @@ func isExplicit(oid string) bool {
 		return false
 	}
 	k := oid[i+1:]
+	if strings.Contains(k, ".auto") {
+		return false // automatic range invariants of loop-carried variables come and go with the code
+	}
 	for _, p := range []string{"post.", "inv.", "dec.", "lemma.", "ghost.", "exit."} {
 		if strings.HasPrefix(k, p) {
 			return true
